@@ -172,7 +172,7 @@ class C16(Driver):
         for w in range(r.randint(1, 3)):
             off, grams = 0, []
             for _ in range(r.randint(1, 8)):
-                n = r.choice([1, 2, 16, 100, 512, 1000, 2000] if not big else
+                n = r.choice([0, 1, 2, 16, 100, 512, 1000, 2000] if not big else
                              [1, 100, 2000, 4095, 4096, 4097, 6000, 8192, 8193, 20000, 60000])
                 grams.append({"off": off, "n": n, "sleep": r.choice([0, 0, 0, 1])})
                 off += n + r.choice([0, 3])
@@ -180,19 +180,26 @@ class C16(Driver):
         total = sum(len(x["grams"]) for x in senders)
         return {"property": "C16", "knobs": knobs, "mode": "dgram", "senders": senders,
                 "recv_buf": 65536 if big else r.choice([2048, 4096, 65536]), "recvs": total + r.choice([0, 0, 1]), "sds": [], "tasks": [],
+                "empty_reply": r.random() < 0.4,
                 "flavour": "plain"}
 
     def render_dgram(self, plan):
         L = []
         A = L.append
-        A("(var srv nil) (var name nil)")
+        A("(var srv nil) (var srv2 nil) (var name nil)")
         A("(defn rx []")
         A("  (for i 0 %d" % plan["recvs"])
         A("    (def b @\"\")")
         A("    (def [ok v] (protect (ev/with-deadline 0.5 (net/recv-from srv %d b))))" % plan["recv_buf"])
         A("    (if ok (sim/ev :dg (length b) %s)" % " ".join("(sim/locate %d b 0 600000)" % x["w"] for x in plan["senders"]))
         A("      (do (sim/ev :rxerr v) (break))))")
+        if plan.get("empty_reply"):
+            # an empty datagram sent with net/send-to is a message like any other: it arrives, before the next one
+            A("  (def a2 (net/address :unix (string name \"-b\") :datagram))")
+            A("  (try (do (net/send-to srv a2 \"\") (net/send-to srv a2 \"z\") (sim/ev :replies-sent)) ([e] (sim/ev :reply-err e)))")
         A("  (sim/ev :rxdone))")
+        if plan.get("empty_reply"):
+            A("(defn rx2 [] (for i 0 2 (def b @\"\") (def [ok v] (protect (ev/with-deadline 2 (net/recv-from srv2 64 b)))) (if ok (sim/ev :reply i (length b)) (do (sim/ev :reply-timeout i) (break)))))")
         for i, sn in enumerate(plan["senders"]):
             A("(defn tx%d []" % i)
             A("  (def c (net/connect :unix name :datagram))")
@@ -204,6 +211,8 @@ class C16(Driver):
                   % (sn["w"], g["off"], g["n"], i, k, i, k))
             A("  (:close c) (sim/ev :txdone %d))" % i)
         A("(ev/go (fn [] (set name (string \"@jsim-dg-\" (os/getpid))) (set srv (net/listen :unix name :datagram))")
+        if plan.get("empty_reply"):
+            A("  (set srv2 (net/listen :unix (string name \"-b\") :datagram)) (ev/go rx2)")
         A("  (ev/go rx) %s))" % " ".join("(ev/go tx%d)" % i for i in range(len(plan["senders"]))))
         return make_request(plan["knobs"], "\n".join(L))
 
@@ -237,6 +246,24 @@ class C16(Driver):
             if sent[key] not in invoked:
                 vs.append(Violation("C16/datagram/received-before-sent", "datagram %r" % (key,)))
             seen.add(key)
+        # a unix datagram socket is reliable: a datagram whose send completed is there to be received
+        okd = set()
+        for e in res.events:
+            if e.kind == "ret":
+                toks = e.payload.split(" ")
+                # (an empty payload written with ev/write to a connected socket need not become a datagram)
+                if toks[2] == ":ok" and plan["senders"][int(toks[0])]["grams"][int(toks[1])]["n"] > 0:
+                    okd.add((int(toks[0]), int(toks[1])))
+        ndg = sum(1 for e in res.events if e.kind == "dg")
+        rxerr = [e for e in res.events if e.kind == "rxerr"]
+        if rxerr and ndg < len(okd) and ndg < plan["recvs"] and not vs:
+            vs.append(Violation("C16/datagram/sent-datagram-never-arrived",
+                                "%d sends completed, %d datagrams received before the receiver's 0.5 s deadline expired" % (len(okd), ndg)))
+        if plan.get("empty_reply") and any(e.kind == "replies-sent" for e in res.events):
+            reps = [e.payload for e in res.events if e.kind == "reply"]
+            if reps[:2] != ["0 0", "1 1"]:
+                vs.append(Violation("C16/datagram/empty-datagram-of-net-send-to-not-delivered-in-order",
+                                    "replies received (index length): %r, expected an empty datagram, then one byte" % (reps,)))
         out, sg = [], set()
         for v in vs:
             if v.sig not in sg:
